@@ -872,6 +872,34 @@ def nul_outcome_safe(F, g, c, is_noreturn, depth=0):
             if sw:
                 ok, why = switch_nul(h, sw[0], nulval, reads2)
                 return ok, "passed to %s: %s" % (h.name, why)
+            # no switch: the parameter is tested by comparisons with constants (an if chain).  With the parameter equal
+            # to the NUL value every such branch is decided; any other branch is followed both ways.
+            written = any((n["k"] in ("BinaryOperator", "CompoundAssignOperator") and n.get("op", "").endswith("=") and n.get("op") not in ("==", "!=", "<=", ">=") and
+                           strip(kids(n)[0]).get("declId") == pid) or
+                          (n["k"] == "UnaryOperator" and n.get("op") in ("++", "--", "&") and strip(kids(n)[0]).get("declId") == pid) for n in h.walk())
+            tests = 0
+            if not written:
+                seen_, todo_ = set(), [h.cfg.entry]
+                while todo_:
+                    b_ = todo_.pop()
+                    if b_ is None or b_ in seen_:
+                        continue
+                    seen_.add(b_)
+                    blk_ = h.cfg.blocks[b_]
+                    ss_ = h.cfg.succ[b_]
+                    cn_ = strip(h.nodes.get(blk_["cond"])) if blk_.get("cond") is not None else None
+                    dec_ = None
+                    if cn_ is not None and cn_["k"] == "BinaryOperator" and cn_.get("op") in ("==", "!=") and len(ss_) == 2:
+                        a_, b2_ = strip(kids(cn_)[0]), strip(kids(cn_)[1])
+                        k_ = cv(b2_) if a_.get("declId") == pid else (cv(a_) if b2_.get("declId") == pid else None)
+                        if k_ is not None:
+                            dec_ = (nulval == k_) if cn_["op"] == "==" else (nulval != k_)
+                            tests += 1
+                    todo_ += [ss_[0] if dec_ else ss_[1]] if dec_ is not None else list(ss_)
+                hit_ = [r_ for r_ in reads2 if r_ in h.cfg.pos and h.cfg.pos[r_][0] in seen_]
+                if tests:
+                    return (not hit_, "passed to %s: with the NUL value %d comparison(s) of the parameter are decided and %s" %
+                            (h.name, tests, "no read is reachable" if not hit_ else "a read is still reachable"))
         return False, "NUL consumer in callee %s not recognised" % par.get("callee")
     if par["k"] == "ReturnStmt":
         return True, "returned to the caller (checked at the caller's site)"
